@@ -37,6 +37,9 @@ def alphabet(dt, rich):
     # a request the order rejects (one is already in flight) inside a batch: it must not be sent with the batch
     A.append(L.tick(dt, "Q", [["TX", [["R", 0, 2.3], ["U", 0, "PERSIST"]], []]]))
     A.append(L.tick(dt, "Q", [["TX", [["C", 0, 2.0], ["U", 0, "PERSIST"], ["R", 0, 2.3]], []]]))
+    # an order that was already placed (whatever became of it) is handed to place_order again, also forced
+    A.append(L.tick(dt, "Q", [["PX", 0, False]]))
+    A.append(L.tick(dt, "Q", [["PX", 0, True]]))
     # request issued together with the market event that completes the order
     A.append(L.tick(dt, "SUS", [["C", 0, None]]))
     A.append(L.tick(dt, "SUS", [["U", 0, "PERSIST"]]))
